@@ -214,4 +214,66 @@ def run : Writer → List Op → Option (Writer × List Out)
       | none => none
       | some (w'', os) => some (w'', o :: os)
 
+/-! ## configuration: which writer `DogStatsDBuilder::build` + `Forwarder::run` create -/
+
+/-- `RemoteAddr` (forwarder/mod.rs): UDP, unix datagram socket (`unixgram://`), unix stream socket (`unix://`) -/
+inductive Transport
+  | udp
+  | unixgram
+  | unix
+  deriving DecidableEq, Repr
+
+/-- `RemoteAddr::default_max_payload_len` -/
+def defaultMaxPayloadLen : Transport → Nat
+  | .udp => 1432
+  | .unixgram => 8192
+  | .unix => 8192
+
+/-- `ForwarderConfiguration::is_length_prefixed` -/
+def isLengthPrefixed : Transport → Bool
+  | .udp => false
+  | .unixgram => false
+  | .unix => true
+
+/-- `UDP_DATAGRAM_MAX_PAYLOAD_LEN = (u16::MAX as usize) - 8` (builder.rs) -/
+def udpDatagramMaxPayloadLen : Nat := 65535 - 8
+
+/-- `u32::MAX as usize` -/
+def u32Max : Nat := 4294967295
+
+/-- `DogStatsDBuilder::get_max_payload_len`: the configured value, else the transport's default -/
+def getMaxPayloadLen (t : Transport) (configured : Option Nat) : Nat :=
+  match configured with
+  | some m => m
+  | none => defaultMaxPayloadLen t
+
+/-- `DogStatsDBuilder::validate_max_payload_len`: `true` = `Ok(())`, `false` = `Err(InvalidConfiguration)` -/
+def validateMaxPayloadLen (t : Transport) (configured : Option Nat) : Bool :=
+  if t = Transport.udp ∧ udpDatagramMaxPayloadLen < getMaxPayloadLen t configured then false
+  else if u32Max < getMaxPayloadLen t configured then false
+  else true
+
+/-- `DogStatsDBuilder::build` (validation, then the forwarder configuration) followed by the first statement of
+    `Forwarder::run` (`PayloadWriter::new(config.max_payload_len, config.is_length_prefixed())`):
+    `none` = `BuildError` (no exporter exists), `some none` = the forwarder thread panics in `PayloadWriter::new`,
+    `some (some w)` = the long-lived writer of the forwarder. -/
+def buildWriter (t : Transport) (configured : Option Nat) (fx : Fixes) : Option (Option Writer) :=
+  if validateMaxPayloadLen t configured then some (new (getMaxPayloadLen t configured) (isLengthPrefixed t) fx)
+  else none
+
+/-- the name `State::flush` hands to the writer's `prefix` argument: the exporter's own telemetry
+    (`datadog.dogstatsd.client…`) is never prefixed -/
+def isPrefixOf : Bytes → Bytes → Bool
+  | [], _ => true
+  | _ :: _, [] => false
+  | a :: as, b :: bs => a == b && isPrefixOf as bs
+
+/-- `"datadog.dogstatsd.client"` -/
+def clientNamespace : Bytes :=
+  [100, 97, 116, 97, 100, 111, 103, 46, 100, 111, 103, 115, 116, 97, 116, 115, 100, 46, 99, 108, 105, 101, 110, 116]
+
+/-- `let prefix = if key.name().starts_with("datadog.dogstatsd.client") { None } else { global_prefix }` -/
+def flushPrefix (globalPrefix : Option Bytes) (name : Bytes) : Option Bytes :=
+  if isPrefixOf clientNamespace name then none else globalPrefix
+
 end MetricsVerif.Statsd
